@@ -98,7 +98,10 @@ Definition widen_t (v : ben) : ben :=
 Inductive c10case :=
 | KEnc (m : kmsg) (impl_bytes : bytes) (impl_dec : dres)
 | KDec (b : bytes) (impl_dec : dres)
-| KReenc (b : bytes) (impl_dec : dres) (impl_reenc : option bytes).
+| KReenc (b : bytes) (impl_dec : dres) (impl_reenc : option bytes)
+(* node level (C05): a real node fed `n` hostile datagrams (requests, and replies to its own in-flight
+   lookups and puts); did its event loop panic, does it still complete a fresh put / answer a ping *)
+| KNode (scenario n : N) (panicked alive : bool).
 
 (* failure codes: 1 model<>impl, 2 property fails on impl; 115 = known class F15 (2-byte transaction
    id re-encoded as 4 bytes) *)
@@ -110,6 +113,7 @@ Definition check10 (c : c10case) : list N :=
   | KDec b idec =>
       (if dres_eqb (of_bytes b) idec then [] else [1]) ++
       (match idec with DPanic => [2] | _ => [] end)
+  | KNode _ _ panicked alive => if panicked || negb alive then [2] else []
   | KReenc b idec ire =>
       (if dres_eqb (of_bytes b) idec
           && match idec, ire with
